@@ -98,6 +98,22 @@ def _falls_off(fn: ast.FunctionDef) -> bool:
     return ends(fn.body)
 
 
+def _setters(cls) -> tuple:
+    """public methods that store their own parameter as the state (`set_state(state)`): step /
+    reset written through them are read with them inlined"""
+    out = set()
+    for mname, m in cls.methods.items():
+        if mname.startswith('__') or m.node.decorator_list:
+            continue
+        w0 = walk_function(m.node)
+        ps0 = [a.arg for a in m.node.args.args[1:]]
+        st0 = [e for e in w0.events if self_attr_store(e, '_state')]
+        if st0 and all(e.value is not None and isinstance(w0.expand(e.value), ast.Name)
+                       and w0.expand(e.value).id in ps0 for e in st0):
+            out.add(mname)
+    return tuple(sorted(out))
+
+
 def step_installs(index: RepoIndex, rep, rule: str) -> None:
     """what an action does to a door or a box reaches the environment: InnerEnv.step stores
     component 0 of its functional_step call on every path that returns, and
@@ -107,7 +123,7 @@ def step_installs(index: RepoIndex, rep, rule: str) -> None:
     m = cls.methods.get('step')
     if m is None:
         raise AnalysisError('anchor vanished: InnerEnv.step')
-    node, w, _ = view(index, m)
+    node, w, _ = view(index, m, cross=_setters(cls))
     st = [e for e in w.events if self_attr_store(e, '_state')]
     fcalls = [e for e in w.events if e.kind == 'call'
               and src(e.node.func) == 'self.functional_step']
